@@ -216,13 +216,17 @@ def systematic_mutations(doc, r, cap):
         elif not isinstance(node, dict):
             for w in eq_other_type(node):
                 out.append((set_at(doc, path, w), 'eqtype'))
+            # a scalar of every OTHER JSON scalar kind at this position (a number inside a list of strings, ...)
+            for w in (1, 2.5, 'x', True):
+                if type(w) is not type(node):
+                    out.append((set_at(doc, path, w), 'retype'))
         if path and node is not None:
             out.append((set_at(doc, path, None), 'null'))
     r.shuffle(out)
     # keep the kinds balanced
     picked, seen = [], {}
     for d, k in out:
-        if seen.get(k, 0) < max(1, cap // 4):
+        if seen.get(k, 0) < max(1, cap // 5):
             picked.append((d, k)); seen[k] = seen.get(k, 0) + 1
     return picked[:cap]
 
@@ -323,6 +327,40 @@ def run_case(c):
             pass
     for extra in c.get('extra_docs', []):
         docs.append((rt.build_json(extra), 'listed'))
+    # history x inheritance: every BASE class of a nested dataclass is loaded on its own before the owner's first load
+    if c.get('pre_load_bases'):
+        from dataclass_wizard import fromdict
+        pre = []
+
+        def bases_of(t, acc):
+            if isinstance(t, dict):
+                if t.get('t') == 'data' and t.get('base') is not None:
+                    acc.append(t)
+                for v in t.values(): bases_of(v, acc)
+            elif isinstance(t, list):
+                for v in t: bases_of(v, acc)
+            return acc
+        insts = rt.nested_instances(x)
+        for child in bases_of(c['root'], []):
+            ccls = reg.by_id[('data', child['id'])]
+            sample = [o for o in insts if type(o) is ccls]
+            if not sample:
+                continue
+            bdoc = {fd['name']: rt.ref_encode(getattr(sample[0], fd['name']), {'xf': 'NONE'}, reg) for fd in child['base']['fields']}
+            try:
+                bdoc = json.loads(json.dumps(bdoc))
+            except (TypeError, ValueError):
+                continue
+            for rg, eng in ((reg, 'v0'), (reg1, 'v1')):
+                bcls = rg.by_id[('data', child['base']['id'])]
+                if eng == 'v1':
+                    LoadMeta(v1=True, v1_key_case='AUTO').bind_to(bcls)
+                try:
+                    r0 = fromdict(bcls, copy.deepcopy(bdoc))
+                    pre.append('%s:%s:%s' % (eng, bcls.__name__, 'ok' if type(r0) is bcls else 'WRONG-TYPE'))
+                except BaseException as e:
+                    pre.append('%s:%s:%s' % (eng, bcls.__name__, type(e).__name__))
+        out['pre_loaded'] = pre
     wizard = 'JSONWizard' in c['root'].get('bases', [])
     for doc, kind in docs:
         rec = {'kind': kind}
